@@ -966,8 +966,10 @@ static void fam_c11_repeat(G& g, Plan& p) {
   int N = 3 + (int)g.below(6);
   int nthreads_per_rep = (W == 5) ? 1 + (int)g.below(3) : 0;
   const bool sequential = (W == 5) && g.chance(0.5); if (sequential) nthreads_per_rep = 2 + (int)g.below(3);
+  const bool crowd = (W == 5) && !sequential && g.chance(0.3); if (crowd) nthreads_per_rep = 33 + (int)g.below(8);     // more threads alive at once, and then ending, than the metadata cache has slots (32)
+  if (crowd && N > 4) N = 4;
   p.progs.resize((size_t)(1 + N * nthreads_per_rep));
-  p.nslots = 200;
+  p.nslots = 200 + 20 * nthreads_per_rep;
   Program& P0 = p.progs[0];
   Rng shape; shape.seed(g.r.next());   // the same workload in every repetition
   for (int rep = 0; rep < N; rep++) {
@@ -990,7 +992,7 @@ static void fam_c11_repeat(G& g, Plan& p) {
     for (int t = 0; t < nthreads_per_rep; t++) {
       int pi = 1 + rep * nthreads_per_rep + t;
       Program& P = p.progs[(size_t)pi]; P.explicit_done = (t % 2) == 0;
-      int m = 10 + (int)g2.below(60);
+      int m = crowd ? 1 + (int)g2.below(5) : 10 + (int)g2.below(60);
       for (int i = 0; i < m; i++) { int s = 130 + t * 20 + (int)g2.below(20); P.ops.push_back(g2.chance(0.55) ? mk(OP_malloc, s, gen_size(g2, SM_SMALL | SM_MEDIUM | SM_LARGE)) : mk(OP_free, g2.chance(0.3) ? (int)g2.below(120) : s)); }
       P0.ops.push_back(mk(OP_spawn, pi));
       if (sequential) P0.ops.push_back(mk(OP_join, pi));      // one after the other: a later thread re-uses what an earlier one left (thread metadata, abandoned segments)
